@@ -473,13 +473,17 @@ def eval_same_length_texts(case):
                 stack.extend(reversed(t.value))
             elif t.value is not None:
                 leaves.append(t)
-        got = [lf.get_orig_text(text) for lf in leaves]
+        try:
+            got = [lf.get_orig_text(text) for lf in leaves]
+            whole = root.get_orig_text(text)
+        except Exception as e:   # noqa
+            f.append(("orig_text_of_a_later_text_raises_" + type(e).__name__, f"record {nrec} (text length {len(text)}): {e}"))
+            break
         want = words + [";"]
         if got != want and not f:
             bad = next(i for i, (g, w) in enumerate(zip(got + [None] * len(want), want)) if g != w)
             f.append(("leaf_orig_text_is_text_of_an_earlier_source", f"record {nrec}: leaf {bad} get_orig_text -> "
                       f"{got[bad] if bad < len(got) else None!r}, its lexeme is {want[bad]!r} (text length {len(text)})"))
-        whole = root.get_orig_text(text)
         if whole != text and not f:
             f.append(("root_orig_text_is_not_the_text", f"record {nrec}: {whole[:60]!r} vs {text[:60]!r}"))
         nrec += 1
